@@ -1539,24 +1539,25 @@ def teardown(ctx):
 
 
 # (name, function, quick cases, thorough cases, share of the time budget); the weights follow the measured cost
-# per case so that the exhaustive sections are never truncated (measured: quick ~36 s, thorough ~400 s of work per shard)
+# per case so that the exhaustive sections are never truncated (measured on an idle machine: quick ~18 s, thorough ~400 s of work per shard); the exhaustive sections come
+# first with large weights: they use only what they need and the remainder rolls over to the random sections
 SECTIONS = [
-    ("exh_pairs", sec_exh_pairs, 256, 256, 4.0),
-    ("exh_triples", sec_exh_triples, 64, 64, 1.0),
-    ("exh_unary", sec_exh_unary, 16, 16, 0.5),
-    ("doc_examples", sec_doc_examples, 1, 1, 0.2),
-    ("exh_cliff1", sec_exh_cliff1, 48, 48, 8.0),
-    ("exh_cliff2", sec_exh_cliff2, 30, 30, 10.0),
-    ("cliff2_enum", sec_cliff2_enum, 420, N_CLIFF2, 20.0),
-    ("rand_cliff", sec_rand_cliff, 2800, 25000, 16.0),
-    ("rand_algebra", sec_rand_algebra, 4200, 40000, 5.0),
-    ("dense", sec_dense, 2800, 25000, 5.0),
-    ("pauli_sum", sec_pauli_sum, 2100, 20000, 4.5),
-    ("boolean", sec_boolean, 560, 5000, 0.5),
-    ("expect", sec_expect, 4200, 36000, 4.0),
-    ("simulate", sec_simulate, 840, 8000, 2.0),
-    ("phasor", sec_phasor, 2100, 20000, 3.0),
-    ("pse", sec_pse, 1400, 12000, 3.0),
+    ("exh_pairs", sec_exh_pairs, 256, 256, 30.0),
+    ("exh_triples", sec_exh_triples, 64, 64, 8.0),
+    ("exh_unary", sec_exh_unary, 16, 16, 4.0),
+    ("doc_examples", sec_doc_examples, 1, 1, 1.0),
+    ("exh_cliff1", sec_exh_cliff1, 48, 48, 40.0),
+    ("exh_cliff2", sec_exh_cliff2, 30, 30, 50.0),
+    ("cliff2_enum", sec_cliff2_enum, 280, N_CLIFF2, 20.0),
+    ("rand_cliff", sec_rand_cliff, 1400, 25000, 16.0),
+    ("rand_algebra", sec_rand_algebra, 2800, 40000, 5.0),
+    ("dense", sec_dense, 2100, 25000, 5.0),
+    ("pauli_sum", sec_pauli_sum, 1400, 20000, 4.5),
+    ("boolean", sec_boolean, 420, 5000, 0.5),
+    ("expect", sec_expect, 2800, 36000, 4.0),
+    ("simulate", sec_simulate, 560, 8000, 2.0),
+    ("phasor", sec_phasor, 1400, 20000, 3.0),
+    ("pse", sec_pse, 840, 12000, 3.0),
     ("interaction", sec_interaction, 280, 4000, 0.3),
-    ("projector", sec_projector, 1400, 12000, 1.0),
+    ("projector", sec_projector, 840, 12000, 1.0),
 ]
